@@ -61,7 +61,7 @@ def run(repo, tier):
                        'errors during SET_ADDRESS (its status is overwritten by the next poll)']
     fn, paths = D.main_paths(facts)
     rep.count('paths through cli_main', len(paths))
-    consts = facts.consts
+    consts = D.module_consts(facts)
     n_req = 0
     n_tests = 0
     guard_seen = False
@@ -71,18 +71,20 @@ def run(repo, tier):
         evs = m.evs
         datas = [r for r in m.reqs if r.kind == 'DATA']
         # symbols: LEN is len() of the value read from the file; S the chunk size when the path gets as far as a data download
-        raw = None
+        raw = m.raw()
         S = None
         if datas:
-            shape = m.data_shape(datas[0])
+            try:
+                shape = m.data_shape(datas[0])
+            except D.Undecided as e:
+                # the capacity cannot be related to the chunk size on this path; the guard's form is still checked against the letter
+                shape = str(e)
+                if ('shape', shape) not in seen:
+                    seen.add(('shape', shape))
+                    rep.note('chunk size not derived on a path: ' + shape)
             if not isinstance(shape, str):
-                raw, S = shape[4], shape[3]
-        if raw is None:
-            # paths that end before the first data download: the file content is the res bound from a .read() call
-            for ev in p.events:
-                if ev[0] == 'value' and ev[1][0] == 'res' and strip(ev[1])[0] == 'mcall' and strip(ev[1])[2].startswith('read'):
-                    raw = ev[1]
-        sym = D.Sym(consts, [], raw)
+                S = shape[3]
+        sym = m.base_sym(raw)
         if raw is not None and ('whole', repr(strip(raw))) not in seen:
             seen.add(('whole', repr(strip(raw))))
             whole, why = D.whole_file_read(raw)
@@ -103,20 +105,30 @@ def run(repo, tier):
                         form_ok = not high and b == Poly.const(1)
                         cap = -a if form_ok else None
                         want, why = expected_capacity(m, consts, S)
+                        by_key, key = D.table_values(cap, consts) if form_ok else (None, None)
                         if form_ok and want is not None:
                             form_ok = cap == want
+                        elif form_ok and by_key is not None:
+                            # the capacity is looked up in a module-level table by the serial-number letter: the oracle's table
+                            ks = strip(key)
+                            if not (ks[0] == 'sub' and ks[2] == C(2)):
+                                rep.undecided('the flash capacity is looked up in a table by {}: not the serial-number letter'.format(show(key)[:40]))
+                                form_ok = None
+                            else:
+                                form_ok = all(by_key.get(l) == n * oracle.DFU['gd32_page_size'] for l, n in oracle.DFU['gd32_pages'].items())
                         elif form_ok and S is not None:
                             q = D.divide(cap, S)
                             form_ok = q is not None and not D.mentions(q, PAGE)
-                            if form_ok:
-                                # page_count looked up in a module table: must be the oracle's table
-                                for k in q.terms:
-                                    for s_ in k:
-                                        tl = D.table_lookup(s_, consts) if isinstance(s_, tuple) else None
-                                        if tl is not None:
-                                            name, dct, key = tl
-                                            form_ok = form_ok and q == Poly.sym(s_) and S == Poly.const(oracle.DFU['gd32_page_size']) \
-                                                and all(dct.get(l) == n for l, n in oracle.DFU['gd32_pages'].items())
+                            if not form_ok and not (D.understood(cap, sym) and D.understood(S, sym)):
+                                rep.undecided('the capacity the size guard admits ({}) is not an expression the rules can follow'.format(cap))
+                                form_ok = None
+                        elif not form_ok and not D.understood(g, sym, (LEN,)):
+                            rep.undecided('the size guard compares the firmware length with something the rules cannot follow: {}'.format(g))
+                            form_ok = None
+                        if form_ok is None:
+                            guard = guard or (idx, True)
+                            guard_seen = True
+                            continue
                         if guard is None:
                             guard = (idx, form_ok)
                         if form_ok:
@@ -146,6 +158,14 @@ def run(repo, tier):
                 if st is None:
                     continue
                 verdict, tested, weights, uid = st
+                if verdict == 'unclear':
+                    # a test over the status byte that cannot be evaluated: it may well be the check - no verdict for this request
+                    key = ('unclear', getattr(node, 'lineno', None), show(test)[:80])
+                    if key not in seen:
+                        seen.add(key)
+                        rep.undecided('the test on the device status at line {} cannot be evaluated: {}'.format(key[1], key[2]))
+                    last_dn = None
+                    continue
                 n_tests += 1
                 if strip(tested)[0] == 'havoc':
                     raise AnalysisError('the status tested at line {} is a loop-carried value the analysis cannot trace to a reply'.format(getattr(node, 'lineno', '?')))
